@@ -33,6 +33,18 @@ LITS = [{'rule': 'R1', 'regex': r'\A\s*\{', 'replace': '{ proof { lemma_lits(); 
 
 SINK = 'final(out).infallible() == old(out).infallible()'
 
+# serialize_list: text put in place of the loop header (R6) -- ghost entry value of the element counter, then `loop {`
+LIST_LOOP_HEAD = 'let ghost g0__: int = it__.i as int; proof { lemma_elems_first(arr@); } loop { '
+# .. and right after the element has been taken: the spelling of one more element (requires-free lemmas)
+LIST_LOOP_STEP = 'proof { lemma_elems_step(arr@, (it__.i - 1) as nat); lemma_elems_first(arr@); lemma_list_serializable_all(arr@); } '
+# R8: a non-capturing predicate closure whose body is one `matches!(..)`: Verus knows a closure only through its `ensures`, which is
+# generated from the same text by back-reference (the body stays verbatim)
+PRED_CLOSURES = [
+    {'rule': 'R8', 'regex': r'let\s+(\w+)\s*=\s*\|\s*(\w+)\s*:\s*([^|]+?)\s*\|\s*(matches!\((?:[^()]|\((?:[^()]|\([^()]*\))*\))*\))\s*;', 'count': '*',
+     'replace': r'let \1 = |\2: \3| -> (r__: bool) ensures r__ == \4 { \4 };'},
+]
+
+
 
 def pub(*fields):
     return [{'rule': 'R2', 'find': f + ':', 'replace': 'pub ' + f + ':'} for f in fields]
@@ -83,22 +95,31 @@ UNIT = {
         ('list_ok_on_infallible_sink', 'old(out).infallible() && list_serializable(arr@, arr@.len()) ==> r is Ok'),
         ('list_sink_kind_kept', SINK),
      ],
+     # the element loop, whatever its source spelling (see LIST_LOOP_* below), is `loop { .. it__.next() .. }` over the verified
+     # slice-iterator model; `it__.i` = number of elements taken, `g0__` (ghost) = its value at loop entry
      'loops': {1: {
         'invariant': [
-           'parts.s@ == arr@', 'parts.i <= arr@.len()', 'parts.i >= 1 || arr@.len() == 0',
+           'it__.s@ == arr@', 'g0__ <= it__.i <= arr@.len()',
            'out.infallible() == old(out).infallible()',
-           ('list_spelling', 'out@ == old(out)@ + ARRAY_OPEN() + spell_elems(arr@, parts.i as nat)'),
+           ('list_spelling', 'out@ == old(out)@ + ARRAY_OPEN() + spell_elems(arr@, it__.i as nat)'),
         ],
-        'decreases': 'arr@.len() - parts.i'}},
+        'decreases': 'arr@.len() - it__.i'}},
      'rewrites': SIG + HOISTS + [
-        # R6: the slice iterator (next() by hand, then `for` over the rest) -> a verified model of slice::Iter
-        {'rule': 'R6', 'find': 'let mut parts = arr.iter();', 'replace': 'let mut parts = PartsIter::new(arr);'},
-        {'rule': 'R6', 'find': 'for p in parts {',
-         'replace': 'loop { let p = match parts.next() { Some(p) => p, None => { break; } }; '
-                    'proof { lemma_elems_step(arr@, (parts.i - 1) as nat); lemma_list_serializable(arr@, arr@.len(), parts.i - 1); }'},
-        {'rule': 'R1', 'find': 'first.serialize(out)?;',
-         'replace': 'proof { lemma_list_serializable(arr@, arr@.len(), 0); } first.serialize(out)?;'},
-     ] + LITS},
+        # R6, by shape (names and the iterated expression captured; every statement of the loop body stays verbatim):
+        # (A) `let mut IT = X.iter(); .. IT.next() .. for P in IT {`  (B) `for (I, P) in X.iter().enumerate() {`
+        # (C) `for P in X.iter() {` / `for P in X {`.  A loop in none of these shapes: loop #1 not found / compile error => UNDECIDED.
+        {'rule': 'R6', 'regex': r'let\s+mut\s+(\w+)\s*=\s*(\w+)\s*\.\s*iter\(\)\s*;(.*?)for\s+(\w+)\s+in\s+\1\s*\{', 'count': '*',
+         'replace': r'let mut \1 = PartsIter::new(\2);\3let mut it__ = \1; ' + LIST_LOOP_HEAD + r'let \4 = match it__.next() { Some(p__) => p__, None => { break; } }; ' + LIST_LOOP_STEP},
+        {'rule': 'R6', 'regex': r'for\s+\(\s*(\w+)\s*,\s*(\w+)\s*\)\s+in\s+(\w+)\s*\.\s*iter\(\)\s*\.\s*enumerate\(\)\s*\{', 'count': '*',
+         'replace': r'let mut it__ = PartsIter::new(\3); ' + LIST_LOOP_HEAD + r'let \1: usize = it__.i; let \2 = match it__.next() { Some(p__) => p__, None => { break; } }; ' + LIST_LOOP_STEP},
+        {'rule': 'R6', 'regex': r'for\s+(\w+)\s+in\s+(\w+)\s*(?:\.\s*iter\(\)\s*)?\{', 'count': '*',
+         'replace': r'let mut it__ = PartsIter::new(\2); ' + LIST_LOOP_HEAD + r'let \1 = match it__.next() { Some(p__) => p__, None => { break; } }; ' + LIST_LOOP_STEP},
+        # guard (no text changed): a loop-carried local other than the iterator (`let mut first = true; ..`) would need an invariant
+        # this unit cannot phrase by shape: expected 0 occurrences => "anchor lost" => UNDECIDED, never an alarm
+        {'rule': 'R6', 'regex': r'let\s+mut\s+(?!it__\b)\w+\s*(?::[^=;]*)?=(?!\s*PartsIter::new\()', 'count': 0, 'replace': r'\g<0>'},
+        # R1: every recursive call is preceded by the (requires-free) fact that elements of a writable list are writable
+        {'rule': 'R1', 'regex': r'(\w+\.serialize\(out\)\?;)', 'count': '*', 'replace': r'proof { lemma_list_serializable_all(arr@); } \1'},
+     ] + PRED_CLOSURES + LITS},
 
   'Dictionary::serialize': {'kind': 'fn', 'file': F, 'container': r'^impl Dictionary$', 'name': 'serialize', 'props': ['C04'],
      'attrs': ['#[verifier::loop_isolation(false)]'],
@@ -121,9 +142,10 @@ UNIT = {
         {'rule': 'R7', 'regex': W + r'"\{\}"\s*,\s*(\w+)\)\?', 'replace': r'hoist_write_name_display(out, \1)?', 'count': '*'},
      ] + HOISTS + ARMS + [
         # R6: IndexMap iteration -> index loop over the entries in iteration order
-        {'rule': 'R6', 'find': 'for (key, val) in self.iter() {',
-         'replace': 'let mut i_: usize = 0; while i_ < self.dict.entries.len() { let key = &self.dict.entries[i_].0; '
-                    'let val = &self.dict.entries[i_].1; i_ = i_ + 1; '
+        # (shape: binder names captured; `self.iter()` / `self.dict.iter()` / `&self.dict` are the same IndexMap iteration)
+        {'rule': 'R6', 'regex': r'for\s+\(\s*(\w+)\s*,\s*(\w+)\s*\)\s+in\s+(?:self\s*\.\s*iter\(\)|self\s*\.\s*dict\s*\.\s*iter\(\)|&\s*self\s*\.\s*dict)\s*\{',
+         'replace': r'let mut i_: usize = 0; while i_ < self.dict.entries.len() { let \1 = &self.dict.entries[i_].0; '
+                    r'let \2 = &self.dict.entries[i_].1; i_ = i_ + 1; '
                     'proof { lemma_entries_step(self.dict.entries@, (i_ - 1) as nat); '
                     'lemma_entries_serializable(self.dict.entries@, self.dict.entries@.len(), i_ - 1); }'},
      ] + LITS},
